@@ -118,6 +118,13 @@ class FakeWriter:
         # StreamWriter.wait_closed() waits for connection_lost, which the transport schedules with call_soon when
         # close() is called: the caller is suspended for (at least) one loop iteration
         await _sleep(0)
+        # ... and re-raises the error the connection was lost with (reset on read, failed write); a clean end of stream
+        # or a plain close() returns normally
+        exc = self.reader.exception() if self.reader is not None else None
+        if exc is not None:
+            raise exc
+        if self.mode in ("fail", "drainfail", "suspfail"):
+            raise ConnectionResetError("fake: connection was lost with a write error")
         return None
 
     def get_extra_info(self, key, default=None):
@@ -1047,8 +1054,24 @@ def _batch_main():
         done = threading.Event()
 
         def watchdog(spec=spec, done=done):
-            if done.wait(wall):
-                return
+            # progress-based: a run is a spin when neither the number of finished event-loop steps nor the virtual clock
+            # has moved for `wall` seconds (a loaded machine is slow but keeps finishing steps; a session that keeps
+            # finishing steps without ever ending is stopped by MAX_BLOCKS)
+            last_sig, idle = None, 0.0
+            while True:
+                if done.wait(1.0):
+                    return
+                tr = RUN_STATE.get("tr")
+                try:
+                    sig = (len(tr.blocks), tr.loop.time()) if tr and tr.loop else None
+                except Exception:  # noqa: BLE001
+                    sig = None
+                if sig != last_sig:
+                    last_sig, idle = sig, 0.0
+                    continue
+                idle += 1.0
+                if idle >= wall:
+                    break
             tr, gw, obs = RUN_STATE.get("tr"), RUN_STATE.get("gw"), RUN_STATE.get("obs") or {}
             o = {"id": spec.get("id"), "client": spec["client"], "spin": True,
                  "beats": (obs.get("beats") or [None])[0], "status": obs.get("status"),
